@@ -852,6 +852,8 @@ func trExecTask() string {
 	etChain("ControllableTask.Launch", cl, "dial", "test:rpc-nil", "wait", "take:nb", "status:var", `test:"STANDBY"`)
 	etChain("ControllableTask.Launch", cl, "getstate", `test:"STANDBY"`, `test:"DONE"`, "kill:pid:KILL", "kill:grp:KILL", "wait", "status:FAILED")
 	etChain("ControllableTask.Launch", cl, "getstate", `test:"ERROR"`, "kill:pid:KILL")
+	etChain("ControllableTask.Launch", cl, fmt.Sprintf("cmp:%d", startMs), "status:FAILED", "rpc=nil", "status:RUNNING") // the start-up timeout ...
+	etChain("ControllableTask.Launch", cl, fmt.Sprintf("cmp:%d", startMs), "kill:grp:KILL", "wait", "status:RUNNING")   // ... kills the group and waits
 	etChain("ControllableTask.Launch", cl, "status:RUNNING", "wait", "take:nb", "status:var")
 	etChain("ControllableTask.Launch", cl, sl(pollMs))
 
